@@ -3,7 +3,7 @@
     code); scores are over the real-number instance of the model, whose binary32 / binary64
     instances are the ones executed against the Rust code on every run. *)
 From Coq Require Import List NArith Reals Sorted Lra.
-From LinfaVerif Require Import Common.Num Common.NdSum C05.Model C05.Proofs.
+From LinfaVerif Require Import Common.Num Common.NdSum Common.B32 C05.Model C05.Proofs.
 Import ListNotations.
 Local Open Scope R_scope.
 
@@ -38,6 +38,16 @@ Theorem cm_cells : forall (L : Type) (lltb leqb : L -> L -> bool), label_order l
   (i < length cs)%nat -> (j < length cs)%nat ->
   get R_ops (cm_count R_ops leqb cs pred truth) i j = INR (count_pairs leqb (nth i cs d) (nth j cs d) pred truth).
 Proof. intros L lltb leqb [H1 H2 H3 H4] pred truth i j d cs. exact (cm_cells_top lltb leqb H1 H2 H3 H4 pred truth i j d). Qed.
+
+(** the binary32 cells the code really stores are exactly the integer counts (up to 2^18 samples,
+    checked by computation; binary32 represents every integer below 2^24) *)
+Theorem cm_counts_exact_f32 : forall (L : Type) (lltb leqb : L -> L -> bool), label_order lltb leqb ->
+  forall (pred truth : list L) (i j : nat) (d : L),
+  let cs := classes lltb leqb pred truth in
+  (i < length cs)%nat -> (j < length cs)%nat -> (N.of_nat (length pred) <= 262144)%N ->
+  get B32_ops (cm_count B32_ops leqb cs pred truth) i j
+  = of_N B32_ops (N.of_nat (count_pairs leqb (nth i cs d) (nth j cs d) pred truth)).
+Proof. intros L lltb leqb H pred truth i j d. exact (cm_cells_f32 lltb leqb H pred truth i j d). Qed.
 
 (** the cells sum to the number of samples (in the summation order of `.sum()`) *)
 Theorem cm_sums_to_n : forall (L : Type) (lltb leqb : L -> L -> bool), label_order lltb leqb ->
@@ -218,3 +228,27 @@ Proof. exact auc_perm. Qed.
 Theorem log_loss_perm_invariant : forall (ln : R -> R) (feps : R) (ps ps' : list (R * bool)),
   Permutation.Permutation ps ps' -> log_loss R_ops ln feps ps = log_loss R_ops ln feps ps'.
 Proof. exact log_loss_perm. Qed.
+
+(** ** Silhouette: with two or more clusters the per-cluster accumulators compute the textbook score
+    mean over samples of (b - a) / max(a, b), a = mean distance to the other members of the own
+    cluster (0 for a singleton), b = smallest mean distance to another cluster *)
+Theorem silhouette_def : forall (L : Type) (leqb : L -> L -> bool),
+  (forall x y, leqb x y = true <-> x = y) ->
+  forall (X : list (list R)) (ls : list L), length X = length ls ->
+  (forall l, In l ls -> exists c, In c ls /\ c <> l) ->
+  silhouette R_ops leqb X ls = silhouette_spec R_ops leqb X ls.
+Proof. exact @silhouette_top. Qed.
+
+(** ** Pearson: for a rectangular data matrix with two or more observations and non-constant
+    columns, the coefficients (covariance by the matrix product divided by n - 1, standard
+    deviations from ndarray's Welford recurrence with a fused multiply-add, here a * b + c) are the
+    textbook coefficients cov(x_i, x_j) / (sd(x_i) sd(x_j)) of the column pairs i < j in the order
+    of the upper triangle *)
+Theorem pearson_def : forall (X : list (list R)) (p : nat),
+  Forall (fun r => length r = p) X -> (2 <= length X)%nat ->
+  (forall j, (j < p)%nat -> 0 < cov_s R_ops (xcol R_ops X j) (xcol R_ops X j)) ->
+  pearson R_ops fmaR X =
+  flat_map (fun i => map (fun j => pearson_pair_spec R_ops (xcol R_ops X i) (xcol R_ops X j)) (seq (S i) (p - S i))) (seq 0 p).
+Proof. exact pearson_top. Qed.
+
+(** ** OPEN: cm_counts_exact_f32 beyond 2^18 samples (true up to 2^24; the proof above is by computation). *)
